@@ -64,6 +64,9 @@ def frames(prop):
         'frame/a-changed-node-is-queued-for-its-handlers-whichever-path-changed-it', 'src/node.rs', 'maybe_change_value_manual',
         [r'if\s+did_change\s*\{', r'self\.changed_at\.set\(', r'self\.maybe_handle_after_stabilisation\(state\)', r'let\s+parents\s*='],
         impl='impl Node'))
+    add({'C07', 'C10', 'C05'}, lambda: F.in_order(
+        'frame/observe-counts-and-queues-the-new-observer', 'src/state.rs', 'observe',
+        [r'InternalObserver::new\(incr\)', r'self\.num_active_observers\.increment\(\)', r'no\.push\(Rc::downgrade\(&internal_observer\)'], impl='impl State'))
     add({'C07', 'C10'}, lambda: F.in_order(
         'frame/a-new-observer-starts-in-Created', 'src/internal_observer.rs', 'new',
         [r'state:\s*Cell::new\(Created\)'], impl='impl<T: Value> InternalObserver<T>'))
